@@ -27,6 +27,8 @@ std::vector<uint8_t> Blob::bytes() const {
 		uint64_t w = rt::splitmix64(x);
 		for (uint32_t j = 0; j < 8 && i + j < len; ++j) b[i + j] = (uint8_t)(w >> (8 * j));
 	}
+	if (len && tweak == 1) b[len - 1] ^= 0xFF;
+	if (len && tweak == 2) b[0] ^= 0xFF;
 	return b;
 }
 
@@ -50,7 +52,9 @@ std::string plan_to_json(const Plan &p, bool pretty) {
 	auto blobs = [&](const char *name, const std::vector<Blob> &v) {
 		s += std::string(",") + nl + "\"" + name + "\":[";
 		for (size_t i = 0; i < v.size(); ++i) {
-			snprintf(buf, sizeof buf, "%s{\"len\":%u,\"seed\":%llu}", i ? "," : "", v[i].len, (unsigned long long)v[i].seed); s += buf;
+			if (v[i].tweak) snprintf(buf, sizeof buf, "%s{\"len\":%u,\"seed\":%llu,\"tweak\":%u}", i ? "," : "", v[i].len, (unsigned long long)v[i].seed, v[i].tweak);
+			else snprintf(buf, sizeof buf, "%s{\"len\":%u,\"seed\":%llu}", i ? "," : "", v[i].len, (unsigned long long)v[i].seed);
+			s += buf;
 		}
 		s += "]";
 	};
@@ -96,7 +100,7 @@ bool plan_from_json(const rt::JVal &j, Plan &p, std::string &err) {
 	if (auto r = j.get("replay")) p.replay = r->t == rt::JVal::BOOL && r->b;
 	p.note = j.str("note");
 	auto blobs = [&](const char *name, std::vector<Blob> &v) {
-		if (auto a = j.get(name)) for (auto &e : a->a) { Blob b; b.len = (uint32_t)e.num("len"); b.seed = e.u64("seed"); v.push_back(b); }
+		if (auto a = j.get(name)) for (auto &e : a->a) { Blob b; b.len = (uint32_t)e.num("len"); b.seed = e.u64("seed"); b.tweak = (uint32_t)e.num("tweak"); v.push_back(b); }
 	};
 	blobs("keys", p.keys); blobs("inputs", p.inputs);
 	auto ops = j.get("ops");
